@@ -44,7 +44,7 @@
 //!  Also: `add_tmpl` and `parse` + `warnings()` report the same list; a panic anywhere is reported as found.
 //!
 //! DEFECT INJECTIONS.  "Expected level" is the level of the kind in `ParseErrorKind::level` (parse/mod.rs) as of
-//! fcf8aa7, which is the only place levels are documented (together with the meaning of the levels in the doc
+//! 9e23dff, which is the only place levels are documented (together with the meaning of the levels in the doc
 //! comments of `ParseErrorLevel`: Fatal "such as miss matched braces", Error "prevents a successful compilation",
 //! Warn "should be a mistake").  The levels are HARD-CODED here, not read from the table, so that a lowered entry is a
 //! finding.  The expected kind is the one the crate's own tests (parse/tag.rs `mod test`) pin for the snippet.
@@ -54,7 +54,8 @@
 //!                middle of the last attribute, before `>` / `/>`)
 //!  tag-mid       delete the `>` / `/>` of a start tag, more source follows     any (no kind is documented  Warn
 //!                                                                              for this form)
-//!  endtag-eof    cut the source before the `>` of the last end tag             any (not documented)        Warn  [K1]
+//!  endtag-eof    cut the source before the `>` of the last end tag             IncompleteTag (since        Fatal
+//!                                                                              9e23dff; formerly K1)
 //!  binding-open  delete the `}}` of a binding                                  MissingExpressionEnd if no  Fatal
 //!                                                                              `}}` follows, else any Fatal
 //!                                                                              expression kind
@@ -65,23 +66,31 @@
 //!                tag, and as `name="zz"` directly behind the original
 //!  dup-module    the same for `module` of <wxs>                                InvalidAttribute (pinned by Warn
 //!                                                                              a test) or Duplicated...
-//!  dup-event     the same for bind: / catch: / mut-bind: / capture-*: events   DuplicatedAttribute         Warn  [K2]
-//!  dup-style     (`run` only, never enumerated) `style:a` twice                DuplicatedAttribute         Warn  [K3]
+//!  dup-style     directed family `DUP_PREFIXED`: `style:a` / `class:a` twice    DuplicatedAttribute (since  Warn
+//!                (same / other value, other attributes between, CRLF / astral) d928a7d; formerly K3)
 //!  child         give <include> / <import> / <wxs src> / <template is> /       ChildNodesNotAllowed        Error
 //!                <slot> a child (text, element, binding)
 //!  no-src        delete `src` of <include> / <import>                          MissingSourcePath           Error
 //!  no-module     delete `module` of <wxs>                                      MissingModuleName           Error
 //!  no-is         delete `is` of <template is> / `name` of <template name>      MissingModuleName (pinned   Error
 //!                                                                              by a test for `<template/>`)
+//!  EXEMPT from dup-attr: event bindings (bind: / catch: / mut-bind: / capture-*:).  Several listeners on one event
+//!  are intended: the crate's own unit test `event_listener` pins `<slot bind:a='f1' bind:a='f2'></slot>` as accepted
+//!  without any diagnostic, so a repeated event binding is not a "duplicated attribute" defect (formerly K2).
 //!  An injection is applied only where it really creates the defect: `end-tag` on an inline <wxs> only if no
 //!  later `</wxs` exists (otherwise the rest is legitimately script text); `tag-mid` only if source follows.
 //!
-//! KNOWN FINDINGS (not asserted by `search`; `DIAG_STRICT=<id> vxreplay DIAG run '<input>'` exits 1): see `KNOWN`.
+//! KNOWN FINDINGS: none open on 9e23dff (`KNOWN` is empty; the `DIAG_STRICT=<id>` switch stays for future entries).
+//! Repaired and now asserted: K1 (end tag cut off by EOF, fix 9e23dff), K3 (`style:` duplicates, fix d928a7d).
+//! Withdrawn: K2 (repeated event bindings are intended, see EXEMPT above).
 //!
-//! `run` also knows the mode `clean-comment-child` (clause 1 on a childless element that holds only a comment, K4).
+//! NARROWED, UNDECIDED BY THE DOCUMENTATION: a comment as the only content of a childless element
+//! (`<slot><!-- c --></slot>`, likewise <template is>, <include>, <import>) is reported as `child nodes are not
+//! allowed` [Error].  The guide does not say whether a comment counts as a child, so such templates are neither
+//! enumerated as clean nor as broken (formerly K4).
 //!
-//! NOT COVERED: `class:` / `style:` multi forms (accepted silently by the parser but "TODO support" there and not in
-//! the guide; see K3); comments as the only content of a childless element (K4); unterminated comments (`<!-- x` +
+//! NOT COVERED: `class:` / `style:` multi forms beyond the directed duplicate family (accepted silently by the
+//! parser but "TODO support" there and not in the guide); unterminated comments (`<!-- x` +
 //! EOF gives no diagnostic; a comment is not a tag, so no clause applies); unquoted attribute values (`value=1` is
 //! `should be quoted` [Warn], not documented syntax); `<` or `}}` inside static text / string literals; defects
 //! combined with each other; `wx:if` / `wx:for` together with `slot:` refs, other attributes on <block>; the
@@ -94,14 +103,9 @@ use std::ops::Range;
 
 /// (id, input as accepted by `run`, description).  `DIAG_STRICT=<id> vxreplay DIAG run '<input>'` exits 1 with the
 /// observation; without the variable the same input (and the whole search) is clean.
-pub const KNOWN: &[(&str, &str, &str)] = &[
-    ("K1", "endtag-eof:<view>x</view", "an end tag that is not terminated before the end of the source (`</view` + EOF) produces no diagnostic at all; clause 2 (\"an unterminated tag\") wants at least one at Warn level or above"),
-    ("K2", "dup-event:<view bind:tap=\"a\" bind:tap=\"a\"/>", "a duplicated event-binding attribute (bind: / catch: / mut-bind: / capture-*:) produces no diagnostic; every other attribute family reports DuplicatedAttribute (Warn)"),
-    ("K3", "dup-style:<div style:a=\"1\" style:a=\"2\"/>", "a duplicated `style:` attribute produces no diagnostic (the check looks into the `class:` list; `class:a class:a` is reported).  Minor: the `class:` / `style:` forms are accepted silently but are not documented and not enumerated"),
-    ("K4", "clean-comment-child:<slot><!-- c --></slot>", "a comment as the only content of a childless element (<slot>, <template is>, <include>, <import>) is reported as `child nodes are not allowed` [Error].  Candidate only: the guide does not say whether a comment counts as a child; not enumerated"),
-];
+pub const KNOWN: &[(&str, &str, &str)] = &[];
 
-const BOUND_HEAD: &str = "LCG-enumerated WXML: clean = 32 directed structures x 7 gap styles x <= 2 seeds, expression pool (77) x 12 binding contexts (style rotating) + x 7 styles (context rotating), 27 attribute kinds x 8 value forms x styles, 10 text forms x 19 statics x styles, 26 guide examples + 3 Note-level spellings, 700 random composites of depth <= 3 (duplicates removed); broken = every applicable single defect injection (end-tag, tag-eof, tag-mid, endtag-eof, binding-open, binding-junk, wx-directive, attr-prefix, dup-attr, dup-module, dup-event, child, no-src, no-module, no-is) at every site of every clean template; fuzz (locations only) = 98 directed broken snippets x 4 embeddings, then every prefix, single-character deletion and insertion of 36 fragments at every position (a rotating third of the fragments for bases over 60 characters) over the base corpus (snippets, guide examples, the structures in compact style and a third of them in each of 3 astral / CRLF styles)";
+const BOUND_HEAD: &str = "LCG-enumerated WXML: clean = 32 directed structures x 7 gap styles x <= 2 seeds, expression pool (77) x 12 binding contexts (style rotating) + x 7 styles (context rotating), 27 attribute kinds x 8 value forms x styles, 10 text forms x 19 statics x styles, 26 guide examples + 3 Note-level spellings + 4 class: / style: non-duplicates, 700 random composites of depth <= 3 (duplicates removed); broken = every applicable single defect injection (end-tag, tag-eof, tag-mid, endtag-eof, binding-open, binding-junk, wx-directive, attr-prefix, dup-attr, dup-module, dup-style (directed), child, no-src, no-module, no-is) at every site of every clean template, + 10 directed class: / style: duplicates; fuzz (locations only) = 98 directed broken snippets x 4 embeddings, then every prefix, single-character deletion and insertion of 36 fragments at every position (a rotating third of the fragments for bases over 60 characters) over the base corpus (snippets, guide examples, the structures in compact style and a third of them in each of 3 astral / CRLF styles)";
 
 fn strict(id: &str) -> bool {
     static S: std::sync::OnceLock<String> = std::sync::OnceLock::new();
@@ -119,10 +123,10 @@ fn level_of(e: &ParseError) -> u8 { e.level() as u8 }
 fn level_name(l: u8) -> &'static str { match l { 1 => "Note", 2 => "Warn", 3 => "Error", 4 => "Fatal", _ => "?" } }
 
 #[derive(Clone, Copy, PartialEq, Eq, Debug, Hash)]
-enum Defect { EndTag, TagEof, TagMid, EndTagEof, BindingOpenLast, BindingOpen, BindingJunk, WxDirective, AttrPrefix, DupAttr, DupModule, DupEvent, DupStyle, Child, NoSrc, NoModule, NoIs }
+enum Defect { EndTag, TagEof, TagMid, EndTagEof, BindingOpenLast, BindingOpen, BindingJunk, WxDirective, AttrPrefix, DupAttr, DupModule, DupStyle, Child, NoSrc, NoModule, NoIs }
 const DEFECTS: &[Defect] = &[
     Defect::EndTag, Defect::TagEof, Defect::TagMid, Defect::EndTagEof, Defect::BindingOpenLast, Defect::BindingOpen, Defect::BindingJunk,
-    Defect::WxDirective, Defect::AttrPrefix, Defect::DupAttr, Defect::DupModule, Defect::DupEvent, Defect::DupStyle, Defect::Child, Defect::NoSrc, Defect::NoModule, Defect::NoIs,
+    Defect::WxDirective, Defect::AttrPrefix, Defect::DupAttr, Defect::DupModule, Defect::DupStyle, Defect::Child, Defect::NoSrc, Defect::NoModule, Defect::NoIs,
 ];
 struct Spec { id: &'static str, kinds: &'static [K], level: u8, known: Option<&'static str> }
 const FATAL_EXPR_KINDS: &[K] = &[K::MissingExpressionEnd, K::UnexpectedExpressionCharacter, K::UnmatchedBracket, K::UnmatchedParenthesis, K::IncompleteConditionExpression, K::InvalidIdentifier];
@@ -131,7 +135,7 @@ fn spec(d: Defect) -> Spec {
         Defect::EndTag => ("end-tag", &[K::MissingEndTag], WARN, None),
         Defect::TagEof => ("tag-eof", &[K::IncompleteTag], FATAL, None),
         Defect::TagMid => ("tag-mid", &[], WARN, None),
-        Defect::EndTagEof => ("endtag-eof", &[], WARN, Some("K1")),
+        Defect::EndTagEof => ("endtag-eof", &[K::IncompleteTag], FATAL, None),
         Defect::BindingOpenLast => ("binding-open-last", &[K::MissingExpressionEnd], FATAL, None),
         Defect::BindingOpen => ("binding-open", FATAL_EXPR_KINDS, FATAL, None),
         Defect::BindingJunk => ("binding-junk", &[K::UnexpectedExpressionCharacter], FATAL, None),
@@ -139,8 +143,7 @@ fn spec(d: Defect) -> Spec {
         Defect::AttrPrefix => ("attr-prefix", &[K::InvalidAttributePrefix], WARN, None),
         Defect::DupAttr => ("dup-attr", &[K::DuplicatedAttribute], WARN, None),
         Defect::DupModule => ("dup-module", &[K::InvalidAttribute, K::DuplicatedAttribute], WARN, None),
-        Defect::DupEvent => ("dup-event", &[K::DuplicatedAttribute], WARN, Some("K2")),
-        Defect::DupStyle => ("dup-style", &[K::DuplicatedAttribute], WARN, Some("K3")),
+        Defect::DupStyle => ("dup-style", &[K::DuplicatedAttribute], WARN, None),
         Defect::Child => ("child", &[K::ChildNodesNotAllowed], ERROR, None),
         Defect::NoSrc => ("no-src", &[K::MissingSourcePath], ERROR, None),
         Defect::NoModule => ("no-module", &[K::MissingModuleName], ERROR, None),
@@ -150,10 +153,10 @@ fn spec(d: Defect) -> Spec {
 }
 
 #[derive(Clone, Copy, PartialEq, Eq, Debug, Hash)]
-enum Mode { Clean, CleanCommentChild, Broken(Defect), Fuzz }
-fn mode_id(m: Mode) -> &'static str { match m { Mode::Clean => "clean", Mode::CleanCommentChild => "clean-comment-child", Mode::Fuzz => "fuzz", Mode::Broken(d) => spec(d).id } }
+enum Mode { Clean, Broken(Defect), Fuzz }
+fn mode_id(m: Mode) -> &'static str { match m { Mode::Clean => "clean", Mode::Fuzz => "fuzz", Mode::Broken(d) => spec(d).id } }
 fn mode_of(id: &str) -> Option<Mode> {
-    match id { "clean" => Some(Mode::Clean), "clean-comment-child" => Some(Mode::CleanCommentChild), "fuzz" => Some(Mode::Fuzz), _ => DEFECTS.iter().copied().find(|d| spec(*d).id == id).map(Mode::Broken) }
+    match id { "clean" => Some(Mode::Clean), "fuzz" => Some(Mode::Fuzz), _ => DEFECTS.iter().copied().find(|d| spec(*d).id == id).map(Mode::Broken) }
 }
 
 // ------------------------------------------------------------------------------------------------------------
@@ -277,8 +280,7 @@ fn check(mode: Mode, src: &str) -> R<()> {
     check_locations(src, &diags)?;
     match mode {
         Mode::Fuzz => Ok(()),
-        Mode::CleanCommentChild if !strict("K4") => Ok(()),
-        Mode::Clean | Mode::CleanCommentChild => {
+        Mode::Clean => {
             match diags.iter().find(|e| level_of(e) >= WARN) {
                 Some(e) => fail(
                     format!("well-formed template gets `{}` [{}] at {} (all: {})", e.kind, level_name(level_of(e)), show(&e.location), show_all(&diags)),
@@ -996,8 +998,9 @@ fn injections(t: &Tpl, mut f: impl FnMut(Defect, String) -> bool) {
         emit!(Defect::AttrPrefix, splice(s, el.name_end..el.name_end, &format!("\n{}", PFX[(ei + 1) % PFX.len()])));
         // duplicated attribute: verbatim, at the end of the tag
         for a in &el.attrs {
-            let d = if is_event_attr(&a.name) { Defect::DupEvent }
-                else if a.name == "module" && matches!(el.kind, EK::WxsInline | EK::WxsSrc) { Defect::DupModule }
+            // (several listeners on one event are intended: event bindings are exempt, see the module doc)
+            if is_event_attr(&a.name) { continue; }
+            let d = if a.name == "module" && matches!(el.kind, EK::WxsInline | EK::WxsSrc) { Defect::DupModule }
                 else { Defect::DupAttr };
             emit!(d, splice(s, el.close.0..el.close.0, &format!(" {}", &s[a.start..a.end])));
             // ... and with another value, directly behind the original
@@ -1040,6 +1043,20 @@ fn injections(t: &Tpl, mut f: impl FnMut(Defect, String) -> bool) {
         emit!(Defect::BindingJunk, splice(s, b.close..b.close, JUNK[(bi + 2) % 5]));
     }
 }
+
+/// Directed family for the `class:` / `style:` prefixes (not in the guide, so not part of the clean generator):
+/// the same prefixed name twice is a duplicated attribute ...
+const DUP_PREFIXED: &[&str] = &[
+    "<div style:a=\"1\" style:a=\"2\"/>", "<div class:a=\"1\" class:a=\"2\"/>", "<div style:a=\"1\" style:a=\"1\"></div>", "<div class:a class:a/>",
+    "<div style:a=\"{{x}}\" class:a=\"{{y}}\" style:a=\"{{z}}\"/>", "<div class:b-c=\"1\" style:b-c=\"2\" title=\"t\" class:b-c=\"3\">x</div>",
+    "\u{1F600}\u{5B57}\r\n<view\r\n  style:\u{61}=\"\u{1F600}\"\r\n  style:a='{{ \"\u{1F600}\" }}'\r\n/>", "<view><text style:w=\"1\" id=\"i\" style:w=\"2\">t</text></view>",
+    "<div style:a=\"1\" style:b=\"2\" style:a=\"3\"/>", "<div class:a=\"1\" class:b=\"2\" class:b=\"3\"/>",
+];
+/// ... while the same name under the two different prefixes, or different names under one prefix, is not
+const NOT_DUP_PREFIXED: &[&str] = &[
+    "<div class:a=\"1\" style:a=\"2\"/>", "<div style:a=\"1\" class:a=\"2\"/>", "<div style:a=\"1\" style:b=\"2\" class:a=\"3\" class:b=\"4\"/>",
+    "<div class=\"c\" style=\"s\" class:a=\"{{x}}\" style:a=\"{{y}}\">t</div>",
+];
 
 // ------------------------------------------------------------------------------------------------------------
 // fuzz family
@@ -1120,7 +1137,7 @@ pub fn search() -> Outcome {
         let mut one = |mode: Mode, src: &str, found: &mut Option<(Mode, String, Fail)>| -> bool {
             if !seen.insert((mode, src.to_string())) { return false; }
             match mode {
-                Mode::Clean | Mode::CleanCommentChild => n_clean += 1,
+                Mode::Clean => n_clean += 1,
                 Mode::Fuzz => n_fuzz += 1,
                 Mode::Broken(d) => { n_broken += 1; *per_defect.entry(spec(d).id).or_insert(0) += 1; }
             }
@@ -1129,7 +1146,8 @@ pub fn search() -> Outcome {
             false
         };
         // clean literals, then built templates each followed by its injections
-        for s in GUIDE.iter().chain(NOTED.iter()) { if one(Mode::Clean, s, &mut found) { break; } }
+        for s in GUIDE.iter().chain(NOTED.iter()).chain(NOT_DUP_PREFIXED.iter()) { if one(Mode::Clean, s, &mut found) { break; } }
+        if found.is_none() { for s in DUP_PREFIXED { if one(Mode::Broken(Defect::DupStyle), s, &mut found) { break; } } }
         if found.is_none() {
             enumerate_built(|t| {
                 if one(Mode::Clean, &t.s, &mut found) { return true; }
@@ -1172,7 +1190,6 @@ pub fn run(input: &str) -> Outcome {
         None => {
             let note = match mode {
                 Mode::Broken(d) => match spec(d).known { Some(k) if !strict(k) => format!("clause 2 is not asserted for `{}` (known finding {}; set DIAG_STRICT={})", spec(d).id, k, k), _ => String::new() },
-                Mode::CleanCommentChild if !strict("K4") => "clause 1 is not asserted for `clean-comment-child` (known finding K4; set DIAG_STRICT=K4)".to_string(),
                 _ => String::new(),
             };
             one(false, note, String::new())
